@@ -62,6 +62,16 @@ func (o *oracle) loadersFor(key []string) []string {
 	}
 	switch {
 	case o.s.via == "g":
+	case o.s.via == "e":
+		// flat topology: a qualified name that starts with a module name is routed to that module ONLY (the global loader
+		// is a sibling, not a parent); every other name is offered to the global loader first, then to the modules — of
+		// which only the one the name is the name of can answer (its init_typeset)
+		if o.isModule(key[0]) {
+			if len(key) >= 2 {
+				return []string{key[0]}
+			}
+			ls = append(ls, key[0])
+		}
 	case strings.HasPrefix(o.s.via, "m:"):
 		m := o.s.via[2:]
 		if key[0] == m || (m == "environment" && len(key) == 1) {
@@ -185,6 +195,22 @@ func (o *oracle) providers(key []string) []cand {
 		}
 	}
 	return nil
+}
+
+// shadowedProvider: some candidate of the prefix (not only the effective one) is a type set that lists the last segment
+func (o *oracle) shadowedProvider(key []string) bool {
+	ts := key[:len(key)-1]
+	last := key[len(key)-1]
+	for _, c := range o.candidates(ts) {
+		if c.f.body.kind == "typeset" && c.f.body.defines(ts) {
+			for _, t := range c.f.body.types {
+				if strings.ToLower(t) == last {
+					return true
+				}
+			}
+		}
+	}
+	return false
 }
 
 // ambiguous: the key has two definition sources that do not shadow each other cleanly — files of two different loaders,
@@ -391,7 +417,11 @@ func judge(s spec, outs []outcome, total map[string]int, out string, strict bool
 		}
 		switch oc.kind {
 		case "found":
-			if len(good) == 0 {
+			if len(good) == 0 && len(key) >= 2 && o.ambiguous(key[:len(key)-1]) && o.shadowedProvider(key) {
+				// the enclosing name has two definitions (known finding C15-duplicate-redefine): the type set that lost
+				// against the parent's file has already defined its members when the redefinition is detected
+				note("duplicate-redefine", fmt.Sprintf("%s is a member of a type set whose name is also defined by a file of another loader", l.name))
+			} else if len(good) == 0 {
 				note("found-without-file", fmt.Sprintf("%s found as %s but no file at its derived path (and no type set) defines it", l.name, oc.name))
 			} else if !keyEq(lowerSegs(strings.Split(oc.name, "::")), key) {
 				note("wrong-name", fmt.Sprintf("%s loaded a definition named %s", l.name, oc.name))
@@ -403,7 +433,11 @@ func judge(s spec, outs []outcome, total map[string]int, out string, strict bool
 					read = read || readSoFar[c.path]
 					kindOK = kindOK || c.kindFor(key) == oc.tkind
 				}
-				if !read {
+				amb := o.ambiguous(key) || (len(key) >= 2 && o.ambiguous(key[:len(key)-1]))
+				if amb && (!read || !kindOK) {
+					// two definition sources (known finding C15-duplicate-redefine): which of them answers is undetermined
+					note("duplicate-redefine", fmt.Sprintf("%s has two definition sources; the answer is not the effective one's", l.name))
+				} else if !read {
 					note("definition-not-from-file", fmt.Sprintf("%s answered as %s although %s, which defines it, was never read", l.name, oc.name, good[0].path))
 				} else if !kindOK {
 					note("definition-not-from-file", fmt.Sprintf("%s answered with a definition of kind %s, not the one %s holds", l.name, oc.tkind, good[0].path))
